@@ -46,9 +46,9 @@ HARNESSES = [
       bounds='all 3^4 trial outcomes', fns=['detect::detect_format'], timeout=300, min_covers=4,
       assumes=['the four input_matches trials are stubbed: each returns any of Ok(true)/Ok(false)/Err']),
     H('U-DET', 'detect', 'detect_trials_get_rewound_reader', 'complete', ['C09', 'C12'],
-      bounds='all 3^4 trial outcomes; 3-byte concrete stream; trials read 1 or 2 bytes', timeout=600, min_covers=5,
+      bounds='all four trials run; 3-byte symbolic stream; trials read 1 or 2 bytes', timeout=600, min_covers=1,
       fns=['detect::detect_format', 'input::Handle::borrow_mut', 'input::GuardedCaptureReader::rewind_and_borrow_mut', 'input::CaptureReader::read'],
-      assumes=['trial parsers stubbed; stream contents concrete']),
+      assumes=['trial parsers stubbed; trial outcomes fixed to Ok(false)']),
     H('U-PIPE', 'pipecheck', 'every_write_method_diverts_broken_pipe', 'complete', ['C16'],
       bounds='5 Write methods x 6 inner results', timeout=300, min_covers=2,
       fns=['pipecheck::Writer::write', 'pipecheck::Writer::flush', 'pipecheck::Writer::write_all', 'pipecheck::Writer::write_fmt',
@@ -106,7 +106,7 @@ HARNESSES = [
       fns=['yaml::encoding::Utf32Decoder::next'], timeout=300, min_covers=1),
     H('U-ENC-16', 'encoding', 'endianness_decode_contract', 'complete', ['C07'], bounds='all 2^32 byte quadruples',
       fns=['yaml::encoding::Endianness::decode_u16', 'yaml::encoding::Endianness::decode_u32'], timeout=300),
-    H('U-ENC-8', 'encoding', 'arraybuffer_ops_contract', 'complete', ['C04', 'C07'], bounds='every ArrayBuffer<4> state x {read, write, set, consume} x every argument <= 4 B',
+    H('U-ENC-8', 'encoding', 'arraybuffer_ops_contract', 'complete', ['C04', 'C07', 'C02'], bounds='every ArrayBuffer<4> state x {read, write, set, consume} x every argument <= 4 B',
       fns=['yaml::encoding::ArrayBuffer::read', 'yaml::encoding::ArrayBuffer::write', 'yaml::encoding::ArrayBuffer::set', 'yaml::encoding::ArrayBuffer::consume',
            'yaml::encoding::ArrayBuffer::unread', 'yaml::encoding::ArrayBuffer::is_empty'], timeout=300),
     H('U-ENC-8', 'encoding', 'utf8_encoder_next_char_bom', 'complete', ['C07'], bounds='every pair of next source items, started or not',
